@@ -314,7 +314,8 @@ func c02Run(c *vcore.Ctx) *vcore.Violation {
 	// path starts; pending* hold them for the call being generated
 	gen := func() *c02sys {
 		kind := src.Pick("sys", "open", "openat", "openat2", "stat", "lstat", "newfstatat", "statx", "access", "faccessat", "faccessat2", "readlink", "readlinkat",
-			"unlink", "unlinkat", "rename", "renameat", "renameat2", "linkat", "symlinkat", "mkdirat", "mknodat", "chmod", "fchmodat", "execve", "execveat", "openat", "open", "newfstatat")
+			"unlink", "unlinkat", "rename", "renameat", "renameat2", "linkat", "symlinkat", "mkdirat", "mknodat", "chmod", "fchmodat", "execve", "execveat", "openat", "open", "newfstatat",
+			"statx", "statx", "faccessat2", "execveat") // (the calls that carry their follow/no-follow choice in a flag register of their own get more weight)
 		s := &c02sys{name: kind, args: [6]string{"0", "0", "0", "0", "0", "0"}}
 		atKind := strings.HasSuffix(kind, "at") || strings.HasSuffix(kind, "at2") || kind == "statx"
 		enc, v := "-100", uint64(0xffffffffffffff9c)
